@@ -260,6 +260,18 @@ def r3_caps(ctx):
                     region = [x for x in h.reach([tgt], removed_nodes=[S]) if h.edge_dominated(x, S, [lab])] + [tgt]
                     if any(st["rv"]["k"] == "agg" and st["rv"].get("variant") == "Err" for x in region for st in h.blocks[x]["s"]):
                         err_on = (lab != 0)
+                if err_on is None:
+                    # the refusing arm may be shared with another failure (`Ok(len) if len <= max => Ok(len), _ => Err(..)`):
+                    # the outcome that refuses is the one from which no Ok(..) can be built any more
+                    dead_ends = []
+                    for lab, tgt in h.succ[S]:
+                        reach = h.reach([tgt], removed_nodes=[S])
+                        oks = any(st["rv"]["k"] == "agg" and st["rv"].get("variant") == "Ok" and st["lhs"]["l"] == 0 for x in reach for st in h.blocks[x]["s"])
+                        errs = any(st["rv"]["k"] == "agg" and st["rv"].get("variant") == "Err" for x in reach for st in h.blocks[x]["s"])
+                        if errs and not oks:
+                            dead_ends.append(lab)
+                    if len(dead_ends) == 1:
+                        err_on = (dead_ends[0] != 0)
             # the caps are byte limits: what is compared is the byte length of the text, not a count of characters
             if hid.endswith("validate_named_text"):
                 if re.search(r"\blen\(value\)", other) and not re.search(r"\b(count|chars|char_indices)\(", other):
